@@ -1,0 +1,23 @@
+//go:build verif
+
+// Verification hooks: run the unexported command bodies with an injected client, compiled only with -tags verif.
+package freeze
+
+import (
+	"io"
+
+	"k8s.io/cli-runtime/pkg/genericclioptions"
+	"sigs.k8s.io/controller-runtime/pkg/client"
+)
+
+// VerifRunFreeze runs `freeze-rollout` (freeze=true) or `unfreeze-rollout` (freeze=false).
+func VerifRunFreeze(c client.Client, namespace, name string, freeze bool) error {
+	want := unfrozen
+	if freeze {
+		want = frozen
+	}
+	o := newfreezeOptions(genericclioptions.IOStreams{Out: io.Discard, ErrOut: io.Discard}, want)
+	o.client, o.userNamespace, o.userExtendedDaemonSetName, o.args = c, namespace, name, []string{name}
+
+	return o.run()
+}
